@@ -532,9 +532,16 @@ Proof. eapply keeps_of_Eh, h_misc_cmd. Qed.
 Lemma keeps_client_close : keeps (client_close P).
 Proof. eapply h_conseq; [apply h_client_close|auto|intros a w H; apply InvN_Inv, H|intros e w H; apply InvN_Inv, H]. Qed.
 
+Lemma keeps_mtry {A} (m : M P A) cls (h : exn -> M P A) : keeps m -> (forall e, keeps (h e)) -> keeps (mtry m cls h).
+Proof.
+  intros Hm Hh w Hw. unfold mtry. specialize (Hm w Hw). destruct (m w) as [[a|e] w']; [exact Hm|].
+  destruct (exn_isa e cls); [apply (Hh e w' Hm)|exact Hm].
+Qed.
+
 Ltac kp := repeat first
   [ apply keeps_ret | apply keeps_throw | apply keeps_lift
   | apply keeps_bind; [first [apply keeps_lift|apply keeps_store_cmd|apply keeps_fetch_cmd|apply keeps_misc_cmd|apply keeps_client_close]|intros]
+  | apply keeps_mtry; [|intros]
   | match goal with |- keeps (if ?b then _ else _) => destruct b end
   | match goal with |- keeps (match ?x with _ => _ end) => destruct x end ].
 
